@@ -25,7 +25,7 @@ ASSUMPTIONS = [
     "pyparsing results-name semantics as documented: expr(name) copies the element and shares the action; "
     "names inside an element whose action returns a new object are not visible outside it",
     "an unknown results name reads as '' (the repo's ParseResults.__getattr__ patch, modelled)",
-    "exemptions (one named symbol each): ENUM alternative; ReturnType.optional_std; G8: four named mutation sites",
+    "exemptions (one named symbol each): ENUM alternative; ReturnType.optional_std; G8: two named mutation sites",
 ]
 
 
@@ -35,11 +35,6 @@ G8_EXEMPT = {
         "of instantiate_namespace)",
     "MatlabWrapper._expand_default_arguments:method.args.backup":
         "additive annotation: a copy of the argument list is attached under a new attribute, no declared field changes",
-    "MatlabWrapper._expand_default_arguments:_.default":
-        "arg belongs to the private copy made by method_copy() two lines above (copy.copy of every argument); the "
-        "shape of that algorithm is decided by C06/M4",
-    "MatlabWrapper._expand_default_arguments:method.args.list().remove(_)":
-        "the list belongs to the ArgumentList built by method_copy() (args_copy builds a new list); C06/M4",
 }
 
 
